@@ -119,4 +119,5 @@ mod verif_kani {
         let p = OptimalMerkleProof::<TH>(v);
         assert!(p.leaf_index() == idx, "leaf_index/decodes-lsb-first");
     }
+
 }
